@@ -121,7 +121,7 @@ fn main() {
     let s0 = «ty:str|«opd:str|a» «bop:str|+» «opd:str|b»»;
     let c0 = «ty:bool|«opd:str|a» «bop:str|==» «opd:str|b»»;
     let c1 = «ty:bool|«opd:str|a» «bop:str|!=» «opd:str|"x"»»;
-    let ch = «ty:str|a[«mut:operand|0¦"k"¦true»]»;
+    let ch = «ty:str|a[«idx:int|0»]»;
     let x = "";
     x «aop:str|=» «asg:str|a»;
     x «aop:str|+=» «asg:str|b»;
@@ -176,11 +176,11 @@ fn main() {
 `},
 	{Name: "list_ops", Construct: "lists", Main: `
 fn main() {
-    let xs = «ty:[int]|[1, 2, 3]»;
-    let ys: [str] = «asg:[str]|["a", "b"]»;
+    let xs = «ty:[int]|[1, «el:int|2», «el:int|3»]»;
+    let ys: [str] = «asg:[str]|["a", «el:str|"b"»]»;
     let empty: [float] = [];
-    let nested = «ty:[[int]]|[[1], [2, 3]]»;
-    let e0 = «ty:int|xs[«mut:operand|0¦"a"¦1.5»]»;
+    let nested = «ty:[[int]]|[[1], «el:[int]|[2, «el:int|3»]»]»;
+    let e0 = «ty:int|xs[«idx:int|0»]»;
     let e1 = «ty:int|nested[1][0]»;
     xs[0] = «asg:int|5»;
     xs[1] «aop:int|+=» «asg:int|e0»;
@@ -264,7 +264,7 @@ fn main() {
     let js = «ty:str|l.to_json()»;
     let ji = «ty:str|p.to_json_indent()»;
     let eq = «ty:bool|«opd:{x:int,y:int}|p» «bop:{x:int,y:int}|==» «opd:{x:int,y:int}|q»»;
-    let objs = «ty:[{x:int,y:int}]|[p, q, origin()]»;
+    let objs = «ty:[{x:int,y:int}]|[p, «el:{x:int,y:int}|q», «el:{x:int,y:int}|origin()»]»;
     let quoted = new { "a b": 1 };
     println(px, ly, iy, ks, js, ji, eq, objs, quoted);
 }
